@@ -75,13 +75,16 @@ def trace_lit(t):
 
 # ---- implementation side --------------------------------------------------------------------------
 def observe(d, ok=True, second=True):
+    import numpy as np
+    # the masked= argument is a numpy boolean for data sets with an odd number of points (accepted; must mean the same)
+    T, F_ = (np.True_, np.False_) if d.get_num_points(masked=None) % 2 == 1 else (True, False)
     return {"ok": ok,
             "all_f": [float(x) for x in d.get_frequencies(masked=None)],
             "all_z": [complex(x) for x in d.get_impedances(masked=None)],
-            "un_f": [float(x) for x in d.get_frequencies(masked=False)],
-            "un_z": [complex(x) for x in d.get_impedances(masked=False)],
-            "ma_f": [float(x) for x in d.get_frequencies(masked=True)],
-            "ma_z": [complex(x) for x in d.get_impedances(masked=True)],
+            "un_f": [float(x) for x in d.get_frequencies(masked=F_)],
+            "un_z": [complex(x) for x in d.get_impedances(masked=F_)],
+            "ma_f": [float(x) for x in d.get_frequencies(masked=T)],
+            "ma_z": [complex(x) for x in d.get_impedances(masked=T)],
             "mask": dict(d.get_mask()), "second": second}
 
 
@@ -94,7 +97,15 @@ def run_impl(case):
     import numpy as np
     from pyimpspec import DataSet
     fs, zs, mask, ops = case
-    caller = None if mask is None else dict(mask)
+    # every other history passes its mask flags as numpy.bool_ (what a mask built by an array comparison holds); DataSet accepts
+    # them and must treat them exactly like Python bools
+    np_flags = (len(fs) + len(ops)) % 2 == 1
+
+    np_keys = (len(fs) + 2 * len(ops)) % 3 == 0
+
+    def dress(m):
+        return {(np.int64(k) if np_keys else k): (np.bool_(v) if np_flags else v) for k, v in m.items()}
+    caller = None if mask is None else dress(mask)
     try:
         d = DataSet(np.array(fs, dtype=float), np.array(zs, dtype=complex), mask=caller)
     except Exception as e:
@@ -105,7 +116,7 @@ def run_impl(case):
         exc = None
         try:
             if t == "set_mask":
-                arg = dict(op[1])
+                arg = dress(dict(op[1]))
                 d.set_mask(arg)
                 tr["steps"].append(observe(d))
             elif t == "low_pass":
